@@ -14,10 +14,12 @@ REGISTRY = []
 
 
 class Contract(object):
-    def __init__(self, target, cls):
+    def __init__(self, target, cls, variant=None):
         self.target = target
+        self.variant = variant
+        self.name = target + ("@" + variant if variant else "")
         self.cls = cls
-        self.short = target.split("::")[1]
+        self.short = target.split("::")[1] + ("@" + variant if variant else "")
         self.params = dict(getattr(cls, "params", {}))
         self.result_shape = getattr(cls, "result", V.TInt())
         self.yield_shape = getattr(cls, "yields", None)
@@ -96,9 +98,9 @@ def _spec_module_info(pymodule):
     return _spec_infos[path]
 
 
-def contract(target, **kw):
+def contract(target, variant=None, **kw):
     def deco(cls):
-        c = Contract(target, cls)
+        c = Contract(target, cls, variant)
         for k, v in kw.items():
             setattr(c, k, v)
         cls.__contract__ = c
